@@ -696,16 +696,48 @@ impl Prop for C17 {
                         // the 32-byte track name is text: escapes, code page markers, multi-byte
                         // sequences, cut off by the end of the field or not terminated at all
                         let mut name = Vec::new();
-                        for _ in 0..rng.usize(0, 3) {
-                            name.push(*rng.pick(b"a1 ^\x01\xE9"));
-                        }
-                        while name.len() < 32 && !rng.chance(1, 6) {
-                            let a: &[u8] = *rng.pick(&gen::TEXT_ATOMS[..]);
-                            name.extend_from_slice(a);
+                        if rng.chance(1, 2) {
+                            // text in one code page: a marker (or none: Latin-1), then letters
+                            // and bytes above 0x7f; a second run in another code page sometimes
+                            if rng.chance(1, 8) {
+                                // text whose first bytes in its own code page look like a byte
+                                // order mark once an earlier character has been written in
+                                // another page: '‘' + Cyrillic "яю…" (FF FE), or Latin-1 "ï»¿" (EF BB BF)
+                                if rng.chance(2, 3) {
+                                    name.extend_from_slice(b"^C\x91\xFF\xFE");
+                                } else {
+                                    name.extend_from_slice(b"^E\xF5^L\xEF\xBB\xBF");
+                                }
+                            }
+                            for _ in 0..rng.usize(1, 2) {
+                                if rng.chance(3, 4) {
+                                    name.push(b'^');
+                                    // single-byte pages: their tables are the same in both
+                                    // directions (the double-byte decoders accept extension
+                                    // characters that the encoders do not produce)
+                                    name.push(*rng.pick(b"LGCETB"));
+                                }
+                                for _ in 0..rng.usize(1, 10) {
+                                    name.push(match rng.below(4) {
+                                        0 => *rng.pick(b"abcXYZ 019"),
+                                        1 => 0x80 + rng.below(0x20) as u8,
+                                        _ => 0xA0 + rng.below(0x60) as u8,
+                                    });
+                                }
+                            }
+                        } else {
+                            for _ in 0..rng.usize(0, 3) {
+                                name.push(*rng.pick(b"a1 ^\x01\xE9"));
+                            }
+                            while name.len() < 32 && !rng.chance(1, 6) {
+                                let a: &[u8] = *rng.pick(&gen::TEXT_ATOMS[..]);
+                                name.extend_from_slice(a);
+                            }
                         }
                         name.resize(32, if rng.chance(1, 4) { b'x' } else { 0 });
                         b[16..48].copy_from_slice(&name[..32]);
-                        notes.push(format!("track name := {}", hex::enc(&name[..32])));
+                        let code_page_text = name.windows(2).all(|w| w[0] != b'^' || b"LGCETB".contains(&w[1])) && name.last() != Some(&b'^');
+                        notes.push(format!("track name{} := {}", if code_page_text { " (single-byte code pages)" } else { "" }, hex::enc(&name[..32])));
                     },
                     0 => {
                         let n = rng.usize(0, 300);
@@ -1132,6 +1164,64 @@ impl Prop for C17 {
                 if sc.note.contains("count at") {
                     rep.probe("hostile_count_field");
                 }
+                // whatever was accepted is a parsed file: written and parsed again it must be
+                // the same structure (what is compared: the text fields, and the bytes of a
+                // second save against those of the first)
+                if let Ok(p1) = &base {
+                    let again = guarded(|| {
+                        let mut w = Cursor::new(Vec::new());
+                        save(p1, &mut w)?;
+                        let b2 = w.into_inner();
+                        let p2 = parse(sc.kind, &mut Cursor::new(b2.clone()))?;
+                        let mut w3 = Cursor::new(Vec::new());
+                        save(&p2, &mut w3)?;
+                        Ok::<_, String>((b2, p2, w3.into_inner()))
+                    });
+                    match again {
+                        Err(m) => rep.violations.push(v("file.panic", format!("{} writing / re-parsing an accepted hostile file panicked: {} [{}]", tag, m, sc.note))),
+                        Ok(Err(e)) => rep.violations.push(v("file.reparse_differs", format!("{} an accepted file could not be written and parsed again: {} [{}]", tag, e, sc.note))),
+                        Ok(Ok((b2, p2, b3))) => {
+                            rep.probe("hostile_accepted_roundtrip");
+                            let text = |p: &Parsed| match p {
+                                Parsed::Smx(x) => x.track.clone(),
+                                Parsed::Pth(_) => String::new(),
+                            };
+                            let (t1, t2) = (text(p1), text(&p2));
+                            // text fidelity is C10's: it promises encode-then-decode only for
+                            // text without a caret whose characters exist in a code page; a
+                            // parsed name with a caret left in it, or with bytes that were not
+                            // valid in their code page (U+FFFD), is outside that promise
+                            // (and C11 truncates the encoded text to the field: a re-encoding that
+                            // needs more code page markers than the original may not fit any more)
+                            let fits = sc.kind != Kind::Smx || b2.get(47) == Some(&0);
+                            let promised = !t1.contains('^') && !t1.contains('\u{FFFD}') && fits && (t1.is_ascii() || sc.note.contains("(single-byte code pages)") || !sc.note.contains("track name"));
+                            if promised {
+                                rep.probe("parsed_text_written_and_parsed_again");
+                                if !t1.is_ascii() {
+                                    rep.probe("parsed_non_ascii_text_written_and_parsed_again");
+                                }
+                            }
+                            if t1 != t2 && promised {
+                                let lossy = false;
+                                rep.violations.push(v(
+                                    "file.text_roundtrip",
+                                    format!(
+                                        "{} track name {:?} ({}) is written as {} and parsed again as {:?}{} [{}]",
+                                        tag,
+                                        t1,
+                                        t1.chars().map(|c| format!("U+{:04X}", c as u32)).collect::<Vec<_>>().join(" "),
+                                        hex::enc(&b2[16..48.min(b2.len())]),
+                                        t2,
+                                        if lossy { " — the first parse already replaced undecodable bytes by U+FFFD" } else { "" },
+                                        sc.note
+                                    ),
+                                ));
+                            } else if t1 == t2 && (describe(p1) != describe(&p2) || b3 != b2) {
+                                rep.violations.push(v("file.reparse_differs", format!("{} written and parsed again: {} became {} [{}]", tag, describe(p1), describe(&p2), sc.note)));
+                            }
+                        },
+                    }
+                }
                 if !reads.is_empty() {
                     let (r, peak, fired) = parse_mem(sc.kind, &sc.image, reads);
                     fire(&mut rep, fired);
@@ -1178,6 +1268,31 @@ impl Prop for C17 {
         })
     }
 
+    /// State that outlives one save (staging buffers kept per thread or per process): an SMX
+    /// save that fails at the k-th write call — somewhere in the header, the track name included
+    /// — executed before the scenario in the same thread.
+    fn preludes(&self, _sc: &FileSc) -> Vec<FileSc> {
+        let mut b = b"LFSSMX".to_vec();
+        b.extend_from_slice(&[0, 1, 0, 0, 0, 0]);
+        b.extend_from_slice(&[0; 4]);
+        b.extend_from_slice(b"PRELUDE_TRACK_NAME_0123456789ab\0");
+        b.extend_from_slice(&[0, 0, 0]);
+        b.extend_from_slice(&[0; 9]);
+        b.extend_from_slice(&0i32.to_le_bytes());
+        b.extend_from_slice(&0i32.to_le_bytes());
+        (0..14usize)
+            .map(|k| {
+                let mut writes = vec![DiskEv::Short(usize::MAX >> 1); k];
+                writes.push(DiskEv::Eio);
+                FileSc {
+                    kind: Kind::Smx,
+                    image: b.clone(),
+                    op: FOp::SaveCrash { writes, durable: None, tail: Tail::Cut },
+                    note: format!("prelude: save failing at write call {}", k),
+                }
+            })
+            .collect()
+    }
     fn shrink(&self, sc: &FileSc) -> Vec<FileSc> {
         let mut c = Vec::new();
         // simplify the op's scripts
@@ -1244,7 +1359,7 @@ impl Prop for C17 {
             "the library has no durability protocol of its own (no fsync, no rename): 'crash' means the writer dies after k accepted bytes and the survivor is whatever those bytes leave on the platter, optionally extended by zeros or stale data".into(),
             "allocation failure is not injected (it aborts the process in Rust); only allocation size is bounded".into(),
             "the pure round-trip half of the statement is covered only as the fault-free baseline of this workload".into(),
-            "generated SMX track names are ASCII without '^', in a fifth of the cases with a few fixed Latin-1 byte pairs (some of them well-formed UTF-8) that the unchanged code reproduces byte for byte; codepage behaviour beyond those bytes (C10/C12, not claimed) cannot influence a verdict".into(),
+            "track names of canonical files (byte-identity round trips) are ASCII without '^', in a fifth of the cases with a few fixed Latin-1 byte pairs; hostile names (escapes, code page markers, multi-byte sequences, unterminated) are checked for no panic / bounded allocation, and for equality after write + re-parse only where C10 promises text fidelity: no caret left in the parsed text, no U+FFFD, single-byte code pages only, re-encoded text still fitting the 32-byte field. Outside that (a literal ^8 followed by bytes above 0x7f, stripped markers that form new markers, Big5/GBK extension characters) the text codec does not round-trip on the unchanged tree; DESIGN.md 12.2 (round 7) records this as an observation outside C17 as read with C10's scope".into(),
         ]
     }
     fn components(&self) -> Value {
